@@ -373,3 +373,410 @@ Proof. unfold is_hom. split; intros; ring. Qed.
 
 Lemma Zeqb_decides : decides_eq Z.eqb.
 Proof. intros a b. apply Z.eqb_eq. Qed.
+
+(* ====================================================================== *)
+(* composition                                                              *)
+
+(* completeness, simulator correctness and special soundness of an abstract sigma
+   protocol, for challenges of the protocol's length *)
+Definition sp_complete (P : sproto) (rel : sp_X P -> sp_W P -> Prop) : Prop :=
+  forall x w r e, rel x w -> length e = sp_len P ->
+    sp_verify P x (fst (sp_commit P x w r)) e
+      (sp_respond P x w (fst (sp_commit P x w r)) (snd (sp_commit P x w r)) e) = true.
+
+Definition sp_sim_ok (P : sproto) : Prop :=
+  forall x e r, length e = sp_len P ->
+    sp_verify P x (fst (sp_sim P x e r)) e (snd (sp_sim P x e r)) = true.
+
+(* [good e1 e2]: the condition on the two challenges the extractor needs (different; for
+   Maurer: difference coprime to the anchor's l) *)
+Definition sp_special_sound (P : sproto) (rel : sp_X P -> sp_W P -> Prop) (good : bytes -> bytes -> Prop)
+           (ext : sp_X P -> sp_A P -> bytes -> sp_Z P -> bytes -> sp_Z P -> sp_W P) : Prop :=
+  forall x a e1 z1 e2 z2, good e1 e2 ->
+    sp_verify P x a e1 z1 = true -> sp_verify P x a e2 z2 = true -> rel x (ext x a e1 z1 e2 z2).
+
+(* ---------- AND (cartesian.go) ---------- *)
+
+Section And2.
+  Variables P0 P1 : sproto.
+  Variable rel0 : sp_X P0 -> sp_W P0 -> Prop.
+  Variable rel1 : sp_X P1 -> sp_W P1 -> Prop.
+
+  Definition and_rel (x : sp_X (and2 P0 P1)) (w : sp_W (and2 P0 P1)) : Prop :=
+    rel0 (fst x) (fst w) /\ rel1 (snd x) (snd w).
+
+  Lemma firstn_len_max0 (e : bytes) : length e = Nat.max (sp_len P0) (sp_len P1) ->
+    length (firstn (sp_len P0) e) = sp_len P0.
+  Proof. intros H. rewrite firstn_length. lia. Qed.
+
+  Lemma firstn_len_max1 (e : bytes) : length e = Nat.max (sp_len P0) (sp_len P1) ->
+    length (firstn (sp_len P1) e) = sp_len P1.
+  Proof. intros H. rewrite firstn_length. lia. Qed.
+
+  Theorem and_complete : sp_complete P0 rel0 -> sp_complete P1 rel1 -> sp_complete (and2 P0 P1) and_rel.
+  Proof.
+    intros C0 C1 [x0 x1] [w0 w1] [r0 r1] e [R0 R1] He. cbn in He, R0, R1.
+    specialize (C0 x0 w0 r0 (firstn (sp_len P0) e) R0 (firstn_len_max0 e He)).
+    specialize (C1 x1 w1 r1 (firstn (sp_len P1) e) R1 (firstn_len_max1 e He)).
+    cbn [and2 sp_verify sp_commit sp_respond fst snd].
+    destruct (sp_commit P0 x0 w0 r0) as [a0 s0]. destruct (sp_commit P1 x1 w1 r1) as [a1 s1].
+    cbn [fst snd] in *. rewrite C0, C1. reflexivity.
+  Qed.
+
+  Theorem and_sim_ok : sp_sim_ok P0 -> sp_sim_ok P1 -> sp_sim_ok (and2 P0 P1).
+  Proof.
+    intros S0 S1 [x0 x1] e [r0 r1] He. cbn in He.
+    specialize (S0 x0 (firstn (sp_len P0) e) r0 (firstn_len_max0 e He)).
+    specialize (S1 x1 (firstn (sp_len P1) e) r1 (firstn_len_max1 e He)).
+    cbn [and2 sp_verify sp_sim fst snd].
+    destruct (sp_sim P0 x0 _ r0) as [a0 z0]. destruct (sp_sim P1 x1 _ r1) as [a1 z1].
+    cbn [fst snd] in *. rewrite S0, S1. reflexivity.
+  Qed.
+
+  (* the composed verifier accepts exactly when both branches accept, each under its
+     prefix of the challenge *)
+  Theorem and_verify_iff : forall (x : sp_X (and2 P0 P1)) (a : sp_A (and2 P0 P1)) e (z : sp_Z (and2 P0 P1)),
+    sp_verify (and2 P0 P1) x a e z = true <->
+    sp_verify P0 (fst x) (fst a) (firstn (sp_len P0) e) (fst z) = true /\
+    sp_verify P1 (snd x) (snd a) (firstn (sp_len P1) e) (snd z) = true.
+  Proof. intros x a e z. cbn [and2 sp_verify]. apply andb_true_iff. Qed.
+
+  (* soundness: two accepting composed transcripts with the same first message give a
+     witness for both statements, when the two challenge prefixes satisfy each branch's
+     extraction condition (with equal challenge lengths the prefixes are the challenges) *)
+  Theorem and_sound : forall good0 good1 ext0 ext1,
+    sp_special_sound P0 rel0 good0 ext0 -> sp_special_sound P1 rel1 good1 ext1 ->
+    sp_special_sound (and2 P0 P1) and_rel
+      (fun e1 e2 => good0 (firstn (sp_len P0) e1) (firstn (sp_len P0) e2) /\
+                    good1 (firstn (sp_len P1) e1) (firstn (sp_len P1) e2))
+      (fun x a e1 z1 e2 z2 =>
+         (ext0 (fst x) (fst a) (firstn (sp_len P0) e1) (fst z1) (firstn (sp_len P0) e2) (fst z2),
+          ext1 (snd x) (snd a) (firstn (sp_len P1) e1) (snd z1) (firstn (sp_len P1) e2) (snd z2))).
+  Proof.
+    intros good0 good1 ext0 ext1 E0 E1 x a e1 z1 e2 z2 [G0 G1] V1 V2.
+    apply and_verify_iff in V1. apply and_verify_iff in V2.
+    destruct V1 as [V10 V11]. destruct V2 as [V20 V21].
+    split; cbn [fst snd]; [eapply E0|eapply E1]; eassumption.
+  Qed.
+End And2.
+
+(* ---------- AND (and.go): n copies, one shared challenge ---------- *)
+
+Lemma forallb3_iff {A B C} (f : A -> B -> C -> bool) l1 l2 l3 :
+  forallb3 f l1 l2 l3 = true <->
+  length l1 = length l2 /\ length l2 = length l3 /\
+  forall i a b c, nth_error l1 i = Some a -> nth_error l2 i = Some b -> nth_error l3 i = Some c -> f a b c = true.
+Proof.
+  revert l2 l3. induction l1 as [|a l1 IH]; intros [|b l2] [|c l3]; cbn [forallb3 length];
+    try (split; [discriminate|intros (H1 & H2 & _); discriminate]).
+  - split; [|reflexivity]. intros _. repeat split. intros [|i] ? ? ? H; discriminate.
+  - rewrite andb_true_iff, IH. split.
+    + intros (Hf & Hl1 & Hl2 & Hall). repeat split; try lia.
+      intros [|i] a' b' c'; cbn [nth_error].
+      * intros [= <-] [= <-] [= <-]. exact Hf.
+      * apply Hall.
+    + intros (Hl1 & Hl2 & Hall). split; [apply (Hall 0%nat); reflexivity|].
+      repeat split; try lia. intros i a' b' c'. apply (Hall (S i)).
+Qed.
+
+Theorem andn_verify_iff (P : sproto) (count : nat) xs az e zs :
+  andn_verify P count xs az e zs = true <->
+  length xs = count /\ length az = count /\ length zs = count /\
+  forall i x a z, nth_error xs i = Some x -> nth_error az i = Some a -> nth_error zs i = Some z ->
+                  sp_verify P x a e z = true.
+Proof.
+  unfold andn_verify. rewrite !andb_true_iff, !Nat.eqb_eq, forallb3_iff. split.
+  - intros (((H1 & H2) & H3) & _ & _ & H). repeat split; assumption.
+  - intros (H1 & H2 & H3 & H). repeat split; try assumption; lia.
+Qed.
+
+(* ---------- OR (or.go) ---------- *)
+
+Lemma xor_bytes_comm a b : xor_bytes a b = xor_bytes b a.
+Proof.
+  revert b. induction a as [|x a IH]; intros [|y b]; cbn [xor_bytes]; try reflexivity.
+  rewrite N.lxor_comm, IH. reflexivity.
+Qed.
+
+Lemma xor_bytes_assoc a b c : xor_bytes (xor_bytes a b) c = xor_bytes a (xor_bytes b c).
+Proof.
+  revert b c. induction a as [|x a IH]; intros [|y b] [|z c]; cbn [xor_bytes]; try reflexivity.
+  rewrite N.lxor_assoc, IH. reflexivity.
+Qed.
+
+Lemma xor_bytes_length a b : length (xor_bytes a b) = Nat.min (length a) (length b).
+Proof.
+  revert b. induction a as [|x a IH]; intros [|y b]; cbn [xor_bytes length]; try reflexivity.
+  rewrite IH. reflexivity.
+Qed.
+
+Lemma xor_bytes_nilpotent a : xor_bytes a a = zero_bytes (length a).
+Proof.
+  induction a as [|x a IH]; cbn [xor_bytes length zero_bytes repeat]; [reflexivity|].
+  rewrite N.lxor_nilpotent. unfold zero_bytes in IH. rewrite IH. reflexivity.
+Qed.
+
+Lemma xor_bytes_zero_r a n : length a = n -> xor_bytes a (zero_bytes n) = a.
+Proof.
+  intros <-. induction a as [|x a IH]; cbn [xor_bytes length zero_bytes repeat]; [reflexivity|].
+  rewrite N.lxor_0_r. unfold zero_bytes in IH. rewrite IH. reflexivity.
+Qed.
+
+Lemma fold_xor_acc l a c : fold_left xor_bytes l (xor_bytes a c) = xor_bytes a (fold_left xor_bytes l c).
+Proof.
+  revert c. induction l as [|x l IH]; intros c; cbn [fold_left]; [reflexivity|].
+  rewrite xor_bytes_assoc. apply IH.
+Qed.
+
+Lemma fold_xor_length n l c :
+  length c = n -> Forall (fun x => length x = n) l -> length (fold_left xor_bytes l c) = n.
+Proof.
+  intros Hc Hl. revert c Hc. induction Hl as [|x l Hx _ IH]; intros c Hc; cbn [fold_left]; [exact Hc|].
+  apply IH. rewrite xor_bytes_length. lia.
+Qed.
+
+Section OrProofs.
+  Variable P : sproto.
+  Variable rel : sp_X P -> sp_W P -> Prop.
+  Variable count : nat.
+
+  Let shares (br : list (sp_A P * bytes * sp_Z P)) : list bytes := map (fun t => snd (fst t)) br.
+
+  (* shares of the branches from index i on: the real share at b, the simulated ones elsewhere *)
+  Lemma branches_shares i b eb xs w r sims :
+    length xs = length sims ->
+    shares (or_branches P i b eb xs w r sims) =
+    map (fun p => if Nat.eqb (fst p) b then eb else snd p) (combine (seq i (length sims)) (map fst sims)).
+  Proof.
+    revert i xs. induction sims as [|[ei ri] sims IH]; intros i [|x xs] Hl; cbn in Hl; try discriminate; [reflexivity|].
+    cbn [or_branches length seq map combine shares fst snd].
+    destruct (Nat.eqb i b).
+    - destruct (sp_commit P x w r) as [a s]. cbn [fst snd]. f_equal. apply IH. lia.
+    - destruct (sp_sim P x ei ri) as [a z]. cbn [fst snd]. f_equal. apply IH. lia.
+  Qed.
+
+  (* folding the shares: the real share once (if b is in range) and all the others *)
+  Lemma fold_shares i b eb (E : list bytes) acc :
+    fold_left xor_bytes
+      (map (fun p => if Nat.eqb (fst p) b then eb else snd p) (combine (seq i (length E)) E)) acc =
+    if (i <=? b)%nat && (b <? i + length E)%nat
+    then xor_bytes eb (fold_left xor_bytes (others i b E) acc)
+    else fold_left xor_bytes (others i b E) acc.
+  Proof.
+    revert i acc. induction E as [|x E IH]; intros i acc; cbn [length seq combine map fold_left others fst snd].
+    - destruct (i <=? b)%nat eqn:A, (b <? i + 0)%nat eqn:B; cbn [andb]; try reflexivity. lia.
+    - destruct (Nat.eqb i b) eqn:Eib.
+      + apply Nat.eqb_eq in Eib. subst b. rewrite IH.
+        replace ((S i <=? i)%nat) with false by (symmetry; apply Nat.leb_gt; lia). cbn [andb].
+        replace ((i <=? i)%nat && (i <? i + S (length E))%nat) with true
+          by (symmetry; apply andb_true_iff; split; [apply Nat.leb_le|apply Nat.ltb_lt]; lia).
+        rewrite xor_bytes_comm. apply fold_xor_acc.
+      + apply Nat.eqb_neq in Eib. rewrite IH. cbn [fold_left].
+        replace ((i <=? b)%nat && (b <? i + S (length E))%nat) with ((S i <=? b)%nat && (b <? S i + length E)%nat).
+        * reflexivity.
+        * destruct (S i <=? b)%nat eqn:A1, (b <? S i + length E)%nat eqn:B1,
+                   (i <=? b)%nat eqn:A2, (b <? i + S (length E))%nat eqn:B2; cbn [andb]; try reflexivity; lia.
+  Qed.
+
+  Lemma others_length_all n i b (E : list bytes) :
+    Forall (fun x => length x = n) E -> Forall (fun x => length x = n) (others i b E).
+  Proof.
+    intros H. revert i. induction H as [|x E Hx _ IH]; intros i; cbn [others]; [constructor|].
+    destruct (Nat.eqb i b); [apply IH|constructor; [exact Hx|apply IH]].
+  Qed.
+
+  (* the shares of an OR prover XOR to the challenge *)
+  Lemma or_prove_shares_xor b xs w r sims e :
+    length xs = length sims -> (b < length sims)%nat -> length e = sp_len P ->
+    Forall (fun s => length (fst s) = sp_len P) sims ->
+    xor_all (sp_len P) (shares (or_prove P b xs w r sims e)) = e.
+  Proof.
+    intros Hl Hb He Hs. unfold or_prove, xor_all. rewrite branches_shares by exact Hl.
+    pose proof (fold_shares 0 b (or_real_share P b e sims) (map fst sims) (zero_bytes (sp_len P))) as F.
+    rewrite map_length in F. unfold bytes in *. rewrite F. clear F.
+    replace ((0 <=? b)%nat && (b <? 0 + length sims)%nat) with true
+      by (symmetry; apply andb_true_iff; split; [apply Nat.leb_le|apply Nat.ltb_lt]; lia).
+    unfold or_real_share.
+    set (O := others 0 b (map fst sims)).
+    assert (HO : Forall (fun x => length x = sp_len P) O).
+    { apply others_length_all. apply Forall_map. exact Hs. }
+    rewrite <- (xor_bytes_zero_r e (sp_len P) He) at 1.
+    rewrite fold_xor_acc, xor_bytes_assoc, xor_bytes_nilpotent.
+    rewrite (fold_xor_length (sp_len P)); [apply xor_bytes_zero_r; exact He| |exact HO].
+    unfold zero_bytes. apply repeat_length.
+  Qed.
+
+  Lemma or_real_share_length b e sims :
+    length e = sp_len P -> Forall (fun s => length (fst s) = sp_len P) sims ->
+    length (or_real_share P b e sims) = sp_len P.
+  Proof.
+    intros He Hs. unfold or_real_share. apply fold_xor_length; [exact He|].
+    apply others_length_all. apply Forall_map. exact Hs.
+  Qed.
+
+  (* every branch of the prover's output verifies under its share, and the shares have the
+     protocol's challenge length *)
+  Lemma or_branches_verify i b eb xs w r sims :
+    sp_complete P rel -> sp_sim_ok P ->
+    length xs = length sims -> length eb = sp_len P ->
+    Forall (fun s => length (fst s) = sp_len P) sims ->
+    (forall x, nth_error xs (b - i) = Some x -> (i <= b)%nat -> rel x w) ->
+    let br := or_branches P i b eb xs w r sims in
+    forallb3 (fun xa ei z => sp_verify P (fst xa) (snd xa) ei z)
+             (combine xs (map (fun t => fst (fst t)) br)) (shares br) (map snd br) = true /\
+    forallb (fun ei => Nat.eqb (length ei) (sp_len P)) (shares br) = true /\
+    length br = length xs.
+  Proof.
+    intros HC HS. revert i xs. induction sims as [|[ei ri] sims IH]; intros i [|x xs] Hl Heb Hs Hrel;
+      cbn in Hl; try discriminate.
+    - cbn. repeat split.
+    - inversion Hs as [|? ? Hei Hs']; subst. cbn [fst] in Hei.
+      specialize (IH (S i) xs ltac:(lia) Heb Hs').
+      assert (Hrel' : forall x0, nth_error xs (b - S i) = Some x0 -> (S i <= b)%nat -> rel x0 w).
+      { intros x0 Hn Hle. apply Hrel; [|lia]. replace (b - i)%nat with (S (b - S i)) by lia. exact Hn. }
+      specialize (IH Hrel'). cbn zeta in IH. destruct IH as (IH1 & IH2 & IH3).
+      cbn [or_branches].
+      destruct (Nat.eqb i b) eqn:Eib.
+      + apply Nat.eqb_eq in Eib. subst i.
+        assert (Rx : rel x w) by (apply Hrel; [rewrite Nat.sub_diag; reflexivity|lia]).
+        pose proof (HC x w r eb Rx Heb) as V.
+        destruct (sp_commit P x w r) as [a s]. cbn [fst snd] in V.
+        cbn [map combine shares forallb3 forallb fst snd length].
+        split; [|split].
+        * apply andb_true_iff. split; [exact V|exact IH1].
+        * apply andb_true_iff. split; [rewrite Heb; apply Nat.eqb_refl|exact IH2].
+        * f_equal. exact IH3.
+      + pose proof (HS x ei ri Hei) as V.
+        destruct (sp_sim P x ei ri) as [a z]. cbn [fst snd] in V.
+        cbn [map combine shares forallb3 forallb fst snd length].
+        split; [|split].
+        * apply andb_true_iff. split; [exact V|exact IH1].
+        * apply andb_true_iff. split; [rewrite Hei; apply Nat.eqb_refl|exact IH2].
+        * f_equal. exact IH3.
+  Qed.
+
+  (* an OR proof built with exactly one real witness (branch b) and all other branches
+     simulated verifies *)
+  Theorem or_complete_one_witness : forall b xs w r sims e xb,
+    sp_complete P rel -> sp_sim_ok P ->
+    length xs = count -> length sims = count -> (b < count)%nat ->
+    nth_error xs b = Some xb -> rel xb w ->
+    length e = sp_len P ->
+    Forall (fun s => length (fst s) = sp_len P) sims ->
+    or_verify_branches P count xs e (or_prove P b xs w r sims e) = true.
+  Proof.
+    intros b xs w r sims e xb HC HS Hx Hsims Hb Hnth Hrel He Hs.
+    unfold or_verify_branches, or_verify.
+    pose proof (or_real_share_length b e sims He Hs) as Heb.
+    destruct (or_branches_verify 0 b (or_real_share P b e sims) xs w r sims HC HS ltac:(lia) Heb Hs) as (V1 & V2 & V3).
+    { intros x Hn _. rewrite Nat.sub_0_r in Hn. congruence. }
+    fold (or_prove P b xs w r sims e) in V1, V2, V3. fold shares.
+    rewrite !map_length, V3, Hx, !Nat.eqb_refl, He, Nat.eqb_refl. cbn [andb].
+    apply andb_true_iff. split; [apply andb_true_iff; split|exact V1].
+    - exact V2.
+    - pose proof (or_prove_shares_xor b xs w r sims e ltac:(lia) ltac:(lia) He Hs) as X.
+      unfold shares in X. rewrite X. clear.
+      unfold bytes_eqb. rewrite Nat.eqb_refl. cbn [andb].
+      induction e as [|x e IH]; cbn; [reflexivity|]. rewrite N.eqb_refl. exact IH.
+  Qed.
+
+End OrProofs.
+
+Section OrSound.
+  Variable P : sproto.
+  Variable count : nat.
+
+  (* soundness of the challenge split: two accepting OR transcripts with the same first
+     message and different challenges differ in the share of some branch, and that branch
+     has two accepting transcripts with the same first message — the situation the
+     branch's extractor needs *)
+  Lemma bytes_eqb_eq a b : bytes_eqb a b = true -> a = b.
+  Proof.
+    unfold bytes_eqb. intros H. apply andb_true_iff in H. destruct H as [Hl H].
+    apply Nat.eqb_eq in Hl. revert b Hl H.
+    induction a as [|x a IH]; intros [|y b] Hl H; cbn in *; try discriminate; [reflexivity|].
+    apply andb_true_iff in H. destruct H as [Hxy H]. apply N.eqb_eq in Hxy. subst y.
+    f_equal. apply IH; [lia|exact H].
+  Qed.
+
+  Lemma lists_differ_at (l1 l2 : list bytes) :
+    length l1 = length l2 -> l1 <> l2 ->
+    exists i x y, nth_error l1 i = Some x /\ nth_error l2 i = Some y /\ x <> y.
+  Proof.
+    revert l2. induction l1 as [|x l1 IH]; intros [|y l2] Hl Hne; cbn in Hl; try discriminate.
+    - elim Hne. reflexivity.
+    - destruct (list_eq_dec N.eq_dec x y) as [->|Hxy].
+      + destruct (IH l2 ltac:(lia)) as (i & a & b & H1 & H2 & H3).
+        { intros ->. apply Hne. reflexivity. }
+        exists (S i), a, b. repeat split; assumption.
+      + exists 0%nat, x, y. repeat split; assumption.
+  Qed.
+
+  Theorem or_sound_split : forall xs az e es zs e' es' zs',
+    or_verify P count xs az e es zs = true ->
+    or_verify P count xs az e' es' zs' = true ->
+    e <> e' ->
+    exists i x a ei zi ei' zi',
+      nth_error xs i = Some x /\ nth_error az i = Some a /\
+      nth_error es i = Some ei /\ nth_error zs i = Some zi /\
+      nth_error es' i = Some ei' /\ nth_error zs' i = Some zi' /\
+      ei <> ei' /\ sp_verify P x a ei zi = true /\ sp_verify P x a ei' zi' = true.
+  Proof.
+    intros xs az e es zs e' es' zs' V V' Hne.
+    unfold or_verify in V, V'. rewrite !andb_true_iff, !Nat.eqb_eq in V, V'.
+    destruct V as (((((((Lx & La) & Lz) & Le) & Lc) & Ls) & Hx) & Hv).
+    destruct V' as (((((((_ & _) & Lz') & Le') & Lc') & Ls') & Hx') & Hv').
+    apply bytes_eqb_eq in Hx. apply bytes_eqb_eq in Hx'.
+    assert (Hes : es <> es') by (intros ->; apply Hne; congruence).
+    destruct (lists_differ_at es es' ltac:(lia) Hes) as (i & ei & ei' & N1 & N2 & Hd).
+    apply forallb3_iff in Hv. apply forallb3_iff in Hv'.
+    destruct Hv as (L1 & L2 & Hv). destruct Hv' as (L1' & L2' & Hv').
+    assert (Hi : (i < count)%nat) by (apply nth_error_Some_lt in N1 || (assert (nth_error es i <> None) by congruence; apply nth_error_Some in H; lia)).
+    destruct (nth_error xs i) as [x|] eqn:Nx; [|apply nth_error_None in Nx; lia].
+    destruct (nth_error az i) as [a|] eqn:Na; [|apply nth_error_None in Na; lia].
+    destruct (nth_error zs i) as [zi|] eqn:Nz; [|apply nth_error_None in Nz; lia].
+    destruct (nth_error zs' i) as [zi'|] eqn:Nz'; [|apply nth_error_None in Nz'; lia].
+    assert (Nc : nth_error (combine xs az) i = Some (x, a)).
+    { clear - Nx Na. revert xs az Nx Na. induction i as [|i IH]; intros [|x0 xs] [|a0 az] Nx Na; cbn in *; try discriminate.
+      - congruence.
+      - apply IH; assumption. }
+    exists i, x, a, ei, zi, ei', zi'. repeat split; try assumption.
+    - exact (Hv i (x, a) ei zi Nc N1 Nz).
+    - exact (Hv' i (x, a) ei' zi' Nc N2 Nz').
+  Qed.
+End OrSound.
+
+(* ---------- Maurer's protocol is an instance of the abstract notions ---------- *)
+
+Section MaurerAsProto.
+  Variables W X : Type.
+  Variable wadd : W -> W -> W.
+  Variable wneg : W -> W.
+  Variable wzero : W.
+  Variable wsmul : Z -> W -> W.
+  Variable xadd : X -> X -> X.
+  Variable xneg : X -> X.
+  Variable xzero : X.
+  Variable xsmul : Z -> X -> X.
+  Variable xeqb : X -> X -> bool.
+  Variable phi : W -> X.
+  Variable len : nat.
+  Hypothesis HW : ab_action wadd wneg wzero wsmul.
+  Hypothesis HX : ab_action xadd xneg xzero xsmul.
+  Hypothesis Hphi : is_hom wadd wsmul xadd xsmul phi.
+  Hypothesis Heq : decides_eq xeqb.
+
+  Let MP := maurer_proto W X wadd wsmul xadd xneg xsmul xeqb phi len.
+
+  Theorem maurer_proto_complete : sp_complete MP (fun x w => phi w = x).
+  Proof.
+    intros x w r e Hr _. cbn in *. subst x.
+    apply (maurer_complete_b W X wadd wneg wzero wsmul xadd xneg xzero xsmul xeqb phi HW HX Hphi Heq).
+  Qed.
+
+  Theorem maurer_proto_sim_ok : sp_sim_ok MP.
+  Proof.
+    intros x e r _. cbn.
+    apply (maurer_simulator_verifies_b W X wadd wneg wzero wsmul xadd xneg xzero xsmul xeqb phi HW HX Hphi Heq).
+  Qed.
+End MaurerAsProto.
